@@ -122,6 +122,64 @@ class Disk:
         return total, n
 
 
+def slit_set_geometry(begin, end, band):
+    """Is (begin, end) [rad] a slit set the documentation allows?
+
+    Documented (module docstring of ``scippneutron.chopper.disk_chopper`` and the property
+    text): every slit has ``begin < end``; slits may not overlap on the disk, also not
+    through top-dead-centre -- which includes a slit that is wider than a full turn and
+    therefore overlaps itself.  ``band`` [rad] is the width of the undecided band around
+    every threshold (zero width, exactly one turn, touching slits).
+
+    Returns a dict: ``verdict`` in {'valid', 'invalid', 'undecided', 'out_of_domain'},
+    ``reason`` (primary: 'reversed' > 'self_overlap' > 'overlap'; or the undecided
+    threshold), ``reasons`` (all that apply), ``margin`` (rad by which the primary
+    condition is violated, or the smallest gap / width for a valid set), ``n``.
+    """
+    b = np.asarray(begin, dtype=LD)
+    e = np.asarray(end, dtype=LD)
+    if b.shape != e.shape or b.ndim > 1 or b.size == 0:
+        return {'verdict': 'out_of_domain', 'reason': 'shape', 'reasons': ['shape'],
+                'margin': None, 'n': int(b.size)}
+    b, e = b.ravel(), e.ravel()
+    if not (np.all(np.isfinite(b.astype(np.float64))) and np.all(np.isfinite(e.astype(np.float64)))):
+        return {'verdict': 'out_of_domain', 'reason': 'non_finite', 'reasons': ['non_finite'],
+                'margin': None, 'n': int(b.size)}
+    band = LD(band)
+    w = e - b
+    invalid, undecided = {}, {}
+    if np.any(w < -band):
+        invalid['reversed'] = float(-np.min(w))
+    if np.any(np.abs(w) <= band):
+        undecided['zero_width'] = float(np.min(np.abs(w)))
+    if np.any(w > TWO_PI + band):
+        invalid['self_overlap'] = float(np.max(w) - TWO_PI)
+    if np.any(np.abs(w - TWO_PI) <= band):
+        undecided['full_turn'] = float(np.min(np.abs(w - TWO_PI)))
+    # overlap between different slits: the slits of positive width, each cut to one turn
+    pos = w > band
+    mg = None
+    if np.count_nonzero(pos) >= 2 or (np.count_nonzero(pos) == 1 and not invalid and not undecided):
+        d = Disk(1, 0, b[pos], b[pos] + np.minimum(w[pos], TWO_PI))
+        mg = LD(np.min(d.circle_gaps()))
+        if np.count_nonzero(pos) >= 2:
+            if mg < -band:
+                invalid['overlap'] = float(-mg)
+            elif mg <= band:
+                undecided['touching'] = float(abs(mg))
+    n = int(b.size)
+    for name in ('reversed', 'self_overlap', 'overlap'):
+        if name in invalid:
+            return {'verdict': 'invalid', 'reason': name, 'reasons': sorted(invalid),
+                    'margin': invalid[name], 'n': n}
+    for name in ('zero_width', 'full_turn', 'touching'):
+        if name in undecided:
+            return {'verdict': 'undecided', 'reason': name, 'reasons': sorted(undecided),
+                    'margin': undecided[name], 'n': n}
+    margin = float(min(LD(np.min(w)), mg)) if mg is not None else float(np.min(w))
+    return {'verdict': 'valid', 'reason': 'disjoint', 'reasons': [], 'margin': margin, 'n': n}
+
+
 def ratio_distance(f_hz, fp_hz, nmax=64):
     """Relative distance of |f|/fp from the nearest integer n or inverse integer 1/n.
 
